@@ -167,14 +167,29 @@ fn run(which: &str, tier: Tier, shard: usize, n: usize) -> Report {
 	let mut rep = Report::new();
 	let sc = uni::Scratch::new("c13");
 	let scr = &sc;
-	let (which, lifts): (&str, Vec<usize>) = if which == "maturity-locks-v5" { ("maturity-locks", vec![12]) } else { (which, vec![0]) };
-	for lift in lifts {
-	let w = if lift == 0 { which.to_string() } else { format!("{}+{}", which, lift) };
+	// (lift, headers of every fork delivered before any body)
+	let (which, lifts): (&str, Vec<(usize, bool)>) = if which == "maturity-locks-v5" {
+		("maturity-locks", vec![(12, false)])
+	} else if which == "maturity-locks-v5-hdr" {
+		("maturity-locks", vec![(12, true)])
+	} else {
+		(which, vec![(0, false)])
+	};
+	for (lift, hdr) in lifts {
+	let w = if lift == 0 { which.to_string() } else { format!("{}+{}{}", which, lift, if hdr { "+hdr" } else { "" }) };
 	crate::chainx::guarded(&w.clone(), &mut rep, move |rep| {
 		let tree = if w.starts_with("maturity-locks") { universe_mat_lifted(scr, tier, lift) } else { universe_nrd(scr) };
 		let mut inv = Inv13 { inst: w.clone() };
 		let is_lift = |i: usize| tree.blocks[i].name.starts_with('p');
-		let prelude: Vec<Ev> = (0..tree.blocks.len()).filter(|i| is_lift(*i)).map(Ev::B).collect();
+		let mut prelude: Vec<Ev> = (0..tree.blocks.len()).filter(|i| is_lift(*i)).map(Ev::B).collect();
+		if hdr {
+			for i in 0..tree.blocks.len() {
+				let valid = |k: usize| !is_lift(k) && tree.valid(k).is_ok();
+				if valid(i) && !(0..tree.blocks.len()).any(|c| valid(c) && tree.blocks[c].parent == Some(i)) {
+					prelude.push(Ev::HS(i));
+				}
+			}
+		}
 		let mut ex = Explorer::with_prelude(&tree, scr, Options::NONE, &w, &prelude);
 		ex.live_check = tier.pick(1, 2);
 		ex.shard = (shard, n);
@@ -215,7 +230,7 @@ impl Engine for C13 {
 		}
 	}
 	fn parts(&self, _tier: Tier) -> Vec<(&'static str, usize)> {
-		vec![("maturity-locks", 8), ("maturity-locks-v5", 8), ("nrd", 8), ("pool", 1)]
+		vec![("maturity-locks", 8), ("maturity-locks-v5", 8), ("maturity-locks-v5-hdr", 8), ("nrd", 8), ("pool", 1)]
 	}
 	fn run_part(&self, part: &str, tier: Tier, shard: usize, n: usize) -> Report {
 		if part == "pool" {
@@ -232,9 +247,19 @@ impl Engine for C13 {
 		uni::init_thread();
 		let sc = uni::Scratch::new("replay");
 		let inst = case["instance"].as_str().unwrap_or("");
-		let lift = if inst.ends_with("+12") { 12 } else { 0 };
+		let hdr = inst.ends_with("+hdr");
+		let lift = if inst.contains("+12") { 12 } else { 0 };
 		let tree = if inst.starts_with("maturity-locks") { universe_mat_lifted(&sc, Tier::Thorough, lift) } else { universe_nrd(&sc) };
 		let mut evs: Vec<Value> = (1..=lift).map(|i| json!(format!("B(p{})", i))).collect();
+		if hdr {
+			let is_lift = |i: usize| tree.blocks[i].name.starts_with('p');
+			for i in 0..tree.blocks.len() {
+				let valid = |k: usize| !is_lift(k) && tree.valid(k).is_ok();
+				if valid(i) && !(0..tree.blocks.len()).any(|c| valid(c) && tree.blocks[c].parent == Some(i)) {
+					evs.push(json!(Ev::HS(i).show(&tree)));
+				}
+			}
+		}
 		evs.extend(case["events"].as_array().cloned().unwrap_or_default());
 		crate::chainx::replay_events(&tree, &json!({"events": evs}), Options::NONE, &sc)
 	}
